@@ -643,8 +643,13 @@ def list_extend(interp, v: Vec, other):
         for i in range(n):
             list_append(interp, v, vget(interp.ctx, seq, i))
         return
-    old = snapshot(v)
     s2 = snapshot(seq)
+    if conc(v.length) == 0:
+        v.items = None
+        v.buf.write(s2)
+        v.length = seq.length
+        return
+    old = snapshot(v)
     Lz = zint(v.length)
     v.items = None
     v.buf.write(lambda k: ite_val(zint(k) < Lz, old(k), s2(z3.simplify(zint(k) - Lz))))
